@@ -194,7 +194,7 @@ structure Klass where
   hasAddGas : Bool
   /-- factory sections whose base class this class derives from (used for custom files) -/
   sections : List String
-  deriving Repr, Inhabited
+  deriving Repr, Inhabited, DecidableEq
 
 structure SectionReg where
   classes : List Klass
@@ -260,7 +260,7 @@ inductive Err where
 inductive Resolved where
   | plain (k : Klass)
   | mixed (mixins : List Klass) (base : Klass)
-  deriving Repr, Inhabited
+  deriving Repr, Inhabited, DecidableEq
 
 /-- insertion sort by class name (`inspect.getmembers` returns members sorted by name) -/
 def insertByName (k : Klass) : List Klass → List Klass
@@ -349,7 +349,7 @@ structure Component where
   kwargs : Config
   /-- for a mixed class: the mixins in the order their `__init_mixin__` runs, with the keywords each receives -/
   mixins : List (String × Config)
-  deriving Repr, Inhabited
+  deriving Repr, Inhabited, DecidableEq
 
 /-- `klass(**kw)` as far as argument binding goes -/
 def bindArgs (k : Klass) (kw : Config) : Except Err Unit :=
